@@ -1967,6 +1967,7 @@ func (x *Exec) havocT(st *State, pre *State, ws *WriteSet, fr *FrameSpec, allocT
 		st.alloc = na
 	}
 	havocked := map[string]bool{}
+	hvOf := map[string]string{}
 	for _, key := range x.heap.fieldOrder {
 		bare := key[strings.LastIndex(key, ".")+1:]
 		comp := ""
@@ -1985,32 +1986,37 @@ func (x *Exec) havocT(st *State, pre *State, ws *WriteSet, fr *FrameSpec, allocT
 		}
 		srt := x.heap.fieldSort[key]
 		old := x.fieldArr(pre, key)
-		nw := c.Fresh("H_"+key, arrSort("Int", srt))
+		hv := c.Fresh("HV_"+key, arrSort("Int", srt))
+		allocAfter, allocPre := st.alloc, pre.alloc
+		frame := fr
+		// new[r] = old[r] where nothing can have been written: memory still unallocated afterwards, and memory that
+		// existed before and lies outside the callee's frame; elsewhere it is arbitrary (hv)
+		nw := c.DefineArrLambda("H_"+key, "Int", srt, func(r string) string {
+			keep := app(">", r, allocAfter)
+			if frame != nil && frame.has {
+				var cs []string
+				for _, f := range frame.fields[key] {
+					cs = append(cs, f(r))
+				}
+				keep = or(keep, and(app("<=", r, allocPre), not(or(cs...))))
+			}
+			return ite(keep, sel(old, r), sel(hv, r))
+		})
 		st.fields[key] = nw
 		havocked[key] = true
-		x.closedness(nw, srt, x.heap.fieldType[key], st.alloc, comp)
-		{
-			// memory that is still unallocated afterwards cannot have been written
-			r := c.boundVar("r")
-			c.Assume(fmt.Sprintf("(forall ((%s Int)) (! (=> (> %s %s) (= (select %s %s) (select %s %s))) :pattern ((select %s %s))))", r, r, st.alloc, nw, r, old, r, nw, r))
-		}
-		if fr != nil && fr.has {
-			r := c.boundVar("r")
-			allowed := "false"
-			var cs []string
-			for _, f := range fr.fields[key] {
-				cs = append(cs, f(r))
-			}
-			allowed = or(cs...)
-			c.Assume(fmt.Sprintf("(forall ((%s Int)) (! %s :pattern ((select %s %s))))", r,
-				implies(and(app("<=", r, pre.alloc), not(allowed)), eq(sel(nw, r), sel(old, r))), nw, r))
-		}
+		hvOf[key] = hv
+		x.closedness(hv, srt, x.heap.fieldType[key], st.alloc, comp)
 	}
 	for _, key := range x.heap.fieldOrder {
 		if strings.HasSuffix(key, "#cap") {
 			base := strings.TrimSuffix(key, "#cap")
 			if havocked[key] {
-				x.sliceFieldInv(func(k string) string { return x.fieldArr(st, k) }, base)
+				x.sliceFieldInv(func(k string) string {
+					if h, ok := hvOf[k]; ok {
+						return h
+					}
+					return x.fieldArr(st, k)
+				}, base)
 			}
 		}
 	}
@@ -2086,13 +2092,16 @@ func (x *Exec) assumeFrameSince(st *State, entry *State, fr *FrameSpec) {
 		if cur == old {
 			continue
 		}
-		r := c.boundVar("r")
-		var cs []string
-		for _, f := range fr.fields[key] {
-			cs = append(cs, f(r))
-		}
-		c.Assume(fmt.Sprintf("(forall ((%s Int)) (! %s :pattern ((select %s %s))))", r,
-			implies(and(app("<=", r, x.alloc0), not(or(cs...))), eq(sel(cur, r), sel(old, r))), cur, r))
+		kk := key
+		srt := x.heap.fieldSort[key]
+		// outside the function's own frame, memory that existed at entry still holds its entry value
+		st.fields[key] = c.DefineArrLambda("H_"+key, "Int", srt, func(r string) string {
+			var cs []string
+			for _, f := range fr.fields[kk] {
+				cs = append(cs, f(r))
+			}
+			return ite(and(app("<=", r, x.alloc0), not(or(cs...))), sel(old, r), sel(cur, r))
+		})
 	}
 	for s := range x.heap.elemInit {
 		cur, old := x.elemsArr(st, s), x.elemsArr(entry, s)
